@@ -464,6 +464,11 @@ def include(ctx, eng, prop, select, why):
                 cache[key] = list(sub.obligations)
             except AnalysisError as exc:
                 cache[key] = exc
+            except Exception as exc:       # the sibling met a shape it
+                # does not know: it cannot decide, which is its own check's
+                # business to report; this property's clauses go on
+                cache[key] = AnalysisError('internal error in %s: %r'
+                                           % (prop, exc))
         finally:
             eng._inc_depth = depth
     got = cache[key]
